@@ -30,6 +30,9 @@ def normaliseId (id : Int) : Py Int :=
   let r := pyAndMask (id - id % 2) 0xFFFFFFFF
   if r > 0x7FFFFFFF then .error .valueError else .ok r
 
+/-- `beacon_id=None`: `random.getrandbits(32) & 0x7FFFFFFF`, then the same normalisation -/
+def defaultId (rand32 : Int) : Py Int := normaliseId (pyAndMask rand32 0x7FFFFFFF)
+
 /-! ### keys: `aes_rand` is a function of the normalised id (Mersenne Twister not modelled), sha256 a parameter -/
 
 structure Prims where
@@ -122,6 +125,17 @@ def mkInfo (computer user process : Txt) : Py Bytes :=
   | .error e => .error e
   | .ok enc => utf8Encode (utf8DecodeIgnore (enc.take 51))
 
+/-- number of bytes of the UTF-8 form of a code point -/
+def cpLen (c : Nat) : Nat := if c < 0x80 then 1 else if c < 0x800 then 2 else if c < 0x10000 then 3 else 4
+
+/-- bytes needed for the UTF-8 form of a text -/
+def byteLen (s : Txt) : Nat := (s.map cpLen).sum
+
+/-- specification of the truncation: whole characters from the front while their encodings fit in `n` bytes -/
+def fitPrefix : Txt → Nat → Txt
+  | [], _ => []
+  | c :: cs, n => if cpLen c ≤ n then c :: fitPrefix cs (n - cpLen c) else []
+
 /-- length of `metadata.dumps()`: the fixed fields (generated from the structure definition) plus `info`. -/
 def metadataLen (info : Bytes) : Nat := Gen.Commands.metadataFixedLen + info.length
 
@@ -198,6 +212,12 @@ def appendTo (c : Client) (r : Nat) (h : Handler) : Client :=
   { c with heap := c.heap.modify r (· ++ [h]) }
 
 def lookupKey (c : Client) (k : Key) : Option Nat := c.taskMap.lookup k
+
+/-- `self.task_map.get(k, [])` as a value (the contents, not the list object) -/
+def stored (c : Client) (k : Key) : List Handler :=
+  match c.lookupKey k with
+  | some r => c.readList r
+  | none => []
 
 /-- the dict as a value: keys in insertion order with the contents of their lists -/
 def view (c : Client) : List (Key × List Handler) := c.taskMap.map fun kr => (kr.1, c.readList kr.2)
@@ -306,17 +326,34 @@ def txtOn_ : Txt := [111, 110, 95]                                     -- "on_"
 def txtEmptyTask : Txt := [101, 109, 112, 116, 121, 95, 116, 97, 115, 107]   -- "empty_task"
 def txtOnCatchAll : Txt := [111, 110, 95, 99, 97, 116, 99, 104, 95, 97, 108, 108]  -- "on_catch_all"
 
-/-- the attribute name looked up by `get_handlers(command_id)`;
-`BeaconCommand(command_id)` raises ValueError for a value that is not a member; an IntEnum member equal to 0
-would be falsy (`... if task else "empty_task"`). -/
-def methodName : Key → Py Txt
-  | none => .ok (txtOn_ ++ txtEmptyTask)
+def txtUnknown_ : Txt := [117, 110, 107, 110, 111, 119, 110, 95]          -- "unknown_"
+
+/-- decimal digits of a natural number, most significant first (`fuel` bounds the number of digits) -/
+def natDigitsAux : Nat → Nat → Txt → Txt
+  | 0, _, acc => acc
+  | fuel + 1, n, acc =>
+    let acc' := (48 + n % 10) :: acc
+    if n / 10 = 0 then acc' else natDigitsAux fuel (n / 10) acc'
+
+def natDigits (n : Nat) : Txt := natDigitsAux (n + 1) n []
+
+/-- `str(i)` / `f"{i}"` for an int -/
+def intDecimal : Int → Txt
+  | .ofNat n => natDigits n
+  | .negSucc n => 45 :: natDigits (n + 1)
+
+/-- the attribute name looked up by `get_handlers(command_id)`:
+`on_empty_task` for `None`; for a `BeaconCommand` value the lower-cased member name without `COMMAND_` (an IntEnum
+member equal to 0 would be falsy: `... if task else "empty_task"`); `BeaconCommand(command_id)` raises ValueError
+for any other value, which is caught (c54c447): the name is then `on_unknown_<command_id>`. -/
+def methodName : Key → Txt
+  | none => txtOn_ ++ txtEmptyTask
   | some id =>
     match commandName id with
-    | none => .error .valueError
+    | none => txtOn_ ++ txtUnknown_ ++ intDecimal id
     | some n =>
-      if id ≠ 0 then .ok (txtOn_ ++ lowerAscii (removeAll txtCOMMAND_ n))
-      else .ok (txtOn_ ++ txtEmptyTask)
+      if id ≠ 0 then txtOn_ ++ lowerAscii (removeAll txtCOMMAND_ n)
+      else txtOn_ ++ txtEmptyTask
 
 /-- `on = getattr(self, name, None); if on: handlers.append(on)` -/
 def appendIfTruthy (c : Client) (r : Nat) : Option Handler → Client
@@ -324,26 +361,17 @@ def appendIfTruthy (c : Client) (r : Nat) : Option Handler → Client
   | none => c
 
 /-- `get_handlers(command_id)`; returns the new heap state and the reference of the returned list -/
-def getHandlers (c : Client) (k : Key) : Py (Client × Nat) :=
-  match methodName k with
-  | .error e => .error e
-  | .ok name =>
-    let on := c.getattr name
-    -- handlers = list(self.task_map.get(command_id, []))
-    let stored := match c.lookupKey k with
-      | some r => c.readList r
-      | none => []
-    let (c1, hr) := c.newList stored
-    let c2 := appendIfTruthy c1 hr on
-    if (c2.readList hr).isEmpty then
-      -- handlers = list(self.task_map.get(-1, []))
-      let storedAll := match c2.lookupKey (some (-1)) with
-        | some r => c2.readList r
-        | none => []
-      let (c3, hr') := c2.newList storedAll
-      let c4 := appendIfTruthy c3 hr' (c.getattr txtOnCatchAll)
-      .ok (c4, hr')
-    else .ok (c2, hr)
+def getHandlers (c : Client) (k : Key) : Client × Nat :=
+  let on := c.getattr (methodName k)
+  -- handlers = list(self.task_map.get(command_id, []))
+  let (c1, hr) := c.newList (c.stored k)
+  let c2 := appendIfTruthy c1 hr on
+  if (c2.readList hr).isEmpty then
+    -- handlers = list(self.task_map.get(-1, []))
+    let (c3, hr') := c2.newList (c2.stored (some (-1)))
+    let c4 := appendIfTruthy c3 hr' (c.getattr txtOnCatchAll)
+    (c4, hr')
+  else (c2, hr)
 
 /-! ### the loop body -/
 
@@ -363,22 +391,71 @@ def invokeOne (h : Handler) : List Event :=
 def invoke (hs : List Handler) : List Event := hs.flatMap invokeOne
 
 /-- one iteration of `_beacon_loop` for the value returned by `get_task()` (`none` = no task; `some v` = a task
-whose `command.value` is `v`; a TaskPacket is always truthy).  A ValueError from `get_handlers` leaves the loop. -/
-def loopStep (silent : Bool) (c : Client) (task : Option Int) : Py (Client × List Event) :=
-  if task = none ∧ ¬ silent then .ok (c, [.sleep])
+whose `command.value` is `v`; a TaskPacket is always truthy).  Nothing in the body can raise any more: the enum
+lookup is guarded and handler exceptions are caught. -/
+def loopStep (silent : Bool) (c : Client) (task : Option Int) : Client × List Event :=
+  if task = none ∧ ¬ silent then (c, [.sleep])
   else
-    match getHandlers c task with
-    | .error e => .error e
-    | .ok (c', hr) => .ok (c', invoke (c'.readList hr) ++ [.sleep])
+    let (c', hr) := getHandlers c task
+    (c', invoke (c'.readList hr) ++ [.sleep])
 
-/-- the loop over a scripted sequence of `get_task()` results; stops at the first escaping exception -/
+/-- the loop over a scripted sequence of `get_task()` results; the third component is the exception that left the
+loop before the script was exhausted (`none` for the current code: no iteration can raise) -/
 def runLoop (silent : Bool) (c : Client) : List (Option Int) → Client × List Event × Option PyExc
   | [] => (c, [], none)
   | t :: ts =>
-    match loopStep silent c t with
-    | .error e => (c, [], some e)
-    | .ok (c', ev) =>
-      let (c'', evs, r) := runLoop silent c' ts
-      (c'', ev ++ evs, r)
+    let (c', ev) := loopStep silent c t
+    let (c'', evs, r) := runLoop silent c' ts
+    (c'', ev ++ evs, r)
+
+/-! ### declarative specification of dispatch, stated over the registration script itself -/
+
+/-- the `(key, handler)` pair a registration adds to `task_map` (none for attribute definitions and for
+registrations that raise) -/
+def Reg.entry : Reg → Option (Key × Handler)
+  | .handle a h =>
+    match handleKey a with
+    | .ok k => some (k, h)
+    | .error _ => none
+  | .register k h => some (k, h)
+  | .catchAll h => some (some (-1), h)
+  | .instAttr _ _ => none
+  | .classAttr _ _ => none
+
+/-- the handlers registered for key `k`, in registration order, with repetitions -/
+def registeredFor (regs : List Reg) (k : Key) : List Handler :=
+  regs.filterMap fun r =>
+    match r.entry with
+    | some (k', h) => if k' = k then some h else none
+    | none => none
+
+def instAttrStep (n : Txt) (acc : Option Handler) : Reg → Option Handler
+  | .instAttr m h => if m = n then some h else acc
+  | _ => acc
+
+def classAttrStep (n : Txt) (acc : Option Handler) : Reg → Option Handler
+  | .classAttr m h => if m = n then some h else acc
+  | _ => acc
+
+/-- the attribute `n` of the client after the script: the last instance-level definition, else the last class-level one -/
+def attrOf (regs : List Reg) (n : Txt) : Option Handler :=
+  match regs.foldl (instAttrStep n) none with
+  | some h => some h
+  | none => regs.foldl (classAttrStep n) none
+
+def truthyAttr : Option Handler → List Handler
+  | some h => if h.truthy then [h] else []
+  | none => []
+
+/-- the handlers a task with command `k` must be dispatched to -/
+def specHandlers (regs : List Reg) (k : Key) : List Handler :=
+  let own := registeredFor regs k ++ truthyAttr (attrOf regs (methodName k))
+  if own.isEmpty then registeredFor regs (some (-1)) ++ truthyAttr (attrOf regs txtOnCatchAll)
+  else own
+
+/-- expected events of one loop iteration, for any command id (known to `BeaconCommand` or not) -/
+def specStep (regs : List Reg) (silent : Bool) (task : Option Int) : List Event :=
+  if task = none ∧ ¬ silent then [.sleep]
+  else invoke (specHandlers regs task) ++ [.sleep]
 
 end C19
